@@ -277,7 +277,7 @@ pub fn run(args: &Args) -> i32 {
     if violation.is_none() {
         let cases = tier.pick(150u32, 1500u32);
         let mut r = runner(sub_seed(seed, "C13"), cases);
-        let alphabet: [&str; 8] = ["a", "\n", "\r\n", "é", "中", "\r", "bc", "\n\n"];
+        let alphabet: [&str; 13] = ["a", "\n", "\r\n", "é", "中", "\r", "bc", "\n\n", "\u{bf}", "\u{7ff}", "\u{ffff}", "\u{10ffff}", "\u{80}"];
         let strat = prop::collection::vec(any::<u8>(), 0..40);
         let cell = std::cell::RefCell::new(&mut ev);
         let res = r.run(&strat, |tape| {
